@@ -137,7 +137,7 @@ def struct_hash(obj) -> str:
 def canon(v):
     """Canonical text of a Python value (mirrors HGBase!ListText)."""
     if isinstance(v, str):
-        return v
+        return "~s1" if v == "1" else v      # the STRING "1" (the text "1" stands for the integer, see SPECIAL)
     if v is None:
         return NONE
     if isinstance(v, Arr):
@@ -190,6 +190,8 @@ OBJ = Opaque()      # THE default object several signatures share (`def f(p=OBJ)
 def pyval(text):
     if text == "~arr":
         return Arr()
+    if text == "~s1":
+        return "1"
     if text == "~obj":
         return OBJ
     if text in ("~tup0", "~tup1", "~tup2"):      # a value that IS a tuple (of length 0, 1, 2): single-output nodes return it as it is
